@@ -84,7 +84,8 @@ def unrel(tree, r):
 
 def key_for(tree, tu_rel, deps, fl):
     h = hashlib.sha256()
-    h.update(json.dumps([a.replace(tree, "<T>") for a in fl]).encode())
+    here = os.path.dirname(os.path.abspath(__file__))  # the shim directories travel with the script; keep keys location independent
+    h.update(json.dumps([a.replace(tree, "<T>").replace(here, "/opt/hgbuild") for a in fl]).encode())
     h.update(tu_rel.encode())
     for d in sorted(deps):
         if d.startswith("A:/usr/") or d.startswith("A:" + SP) or d.startswith("A:/root/miniconda"):
